@@ -7,6 +7,8 @@ import (
 	"bytes"
 	"encoding/hex"
 	"fmt"
+	"gitlab.com/yawning/obfs4.git/common/drbg"
+	"gitlab.com/yawning/obfs4.git/common/probdist"
 	"math"
 	"net"
 	"os"
@@ -295,6 +297,20 @@ func runShape(c *mc.Ctx, sh shape, br *o4h.Bridge, seed int64, quick bool) {
 				fail(c, "seed-adoption", "shape/table/"+sh.role, "%s length table %v differs from the reference table of the bridge seed %v", sh.role, lenVals, lenD.Abs())
 				return
 			}
+		}
+		// another connection of the same process (to another bridge) builds its own
+		// distributions: this connection's tables stay what they were
+		for k := 0; k < 2; k++ {
+			otherSeed, err := drbg.SeedFromBytes(rnd.New(seed, fmt.Sprint("c09-other-bridge-", k)).Bytes(24))
+			if err != nil {
+				panic(err)
+			}
+			probdist.New(otherSeed, 0, 1448, sh.bias)
+			probdist.New(otherSeed, 0, 100, sh.bias)
+		}
+		if lv2, iv2, _ := obfs4.VerifDists(conn); fmt.Sprint(lv2) != fmt.Sprint(lenVals) || fmt.Sprint(iv2) != fmt.Sprint(iatVals) {
+			fail(c, "seed-adoption", "shape/table-changed/"+sh.role, "%s: the connection's length/delay tables changed (%v -> %v) when distributions for another connection (another seed) were created", sh.role, lenVals, lv2)
+			return
 		}
 		var cells []cell
 		if governed {
